@@ -15,4 +15,12 @@ NOTE = {
 
 
 def run(prop, tier, seed, replay):
-    return routing.run_property(prop, tier, seed, NOTE[prop])
+    extra = None
+    if prop == "C03":
+        # "exactly one part accepts" rests on the build-time overlap check: every tuple of sorted name lists replayed into it (Merge.tla)
+        from . import merge
+
+        def extra(rep):
+            mp = merge.piece(rep, "quick", seed)
+            return {"overlap_check_tuples_replayed": mp["traces"]}
+    return routing.run_property(prop, tier, seed, NOTE[prop], extra=extra)
